@@ -42,6 +42,10 @@ type FaultPlan struct {
 	YieldAt int
 	Yield   func()
 	Yields  int
+	// RowYieldAt: run Yield while the k-th row change (insert / update / delete of a non-internal table) is being
+	// executed: the statement completes, what follows sees the effect of Yield (e.g. a cancelled context)
+	RowYieldAt int
+	Rows       int
 	// YieldOnDelete: count only DELETE statements (a rewind in progress) towards YieldAt
 	YieldOnDelete bool
 
@@ -104,6 +108,7 @@ func connectHook(c *sqlite3.SQLiteConn) error {
 		return faults.authorize(file, op, a1, a2, a3)
 	})
 	c.RegisterCommitHook(func() int { return faults.commit(file) })
+	c.RegisterUpdateHook(func(op int, db string, table string, rowid int64) { faults.rowChange(file, table) })
 	c.RegisterRollbackHook(func() { faults.rollback(file) })
 	return nil
 }
@@ -205,6 +210,28 @@ func (f *faultRegistry) authorize(file string, op int, a1, a2, a3 string) int {
 		return sqlite3.SQLITE_DENY
 	}
 	return sqlite3.SQLITE_OK
+}
+
+func (f *faultRegistry) rowChange(file, table string) {
+	if isInternalTable(table) {
+		return
+	}
+	f.mu.Lock()
+	p := f.plans[file]
+	if p == nil {
+		f.mu.Unlock()
+		return
+	}
+	p.Rows++
+	var yield func()
+	if p.RowYieldAt != 0 && p.Rows == p.RowYieldAt && p.Yield != nil {
+		yield = p.Yield
+		p.Yields++
+	}
+	f.mu.Unlock()
+	if yield != nil {
+		yield()
+	}
 }
 
 func (f *faultRegistry) commit(file string) int {
